@@ -14,6 +14,7 @@ namespace
 {
 std::map<std::string, std::string> vals;
 std::map<std::string, int>         name_count;
+std::map<std::string, int>         contract_mode;
 std::string                        config;
 uint64_t                           seed   = 0;
 bool                               replay = false;
@@ -149,16 +150,19 @@ extern "C"
     int sbv_concrete(void) { return 1; }
     int sbv_is_symbolic(const void*, size_t) { return 0; }
     int sbv_ite(int c, int a, int b) { return c ? a : b; }
+    void sbv_set_contract(const char* name, int mode) { contract_mode[name] = mode; }
     void sbv_harness(const char* cfg);
 }
 
 // contract mirror: the instantiations used by libnano (the library objects have these symbols weak and not inlined)
 static long draw_signed(long a, long b)
 {
+    if (contract_mode["udist"] == 1) return a;
     return sbv_range("udist", a, b);
 }
 static unsigned long draw_unsigned(unsigned long a, unsigned long b)
 {
+    if (contract_mode["udist"] == 1) return a;
     std::string nm = fresh_name("udist");
     auto        it = vals.find(nm);
     unsigned long r;
